@@ -143,8 +143,48 @@ func specEq(a, b JsonNode, metadata []Metadata) bool {
 		return ok && specEqList(x, y, metadata)
 	case jsonArray:
 		return specEq(specDispatch(x, metadata), b, metadata)
+	case jsonSet:
+		y, ok := specDispatch(b, metadata).(jsonSet)
+		return ok && specSubset(x, y, metadata) && specSubset(y, x, metadata)
+	case jsonMultiset:
+		y, ok := specDispatch(b, metadata).(jsonMultiset)
+		return ok && len(x) == len(y) &&
+			forallInt(0, len(x), func(i int) bool { return specCount(x, x[i], metadata) == specCount(y, x[i], metadata) })
+	case jsonStringOrInteger:
+		return specSoriEq(x, b, metadata)
 	}
 	return false
+}
+
+func existsInt(lo, hi int, f func(i int) bool) bool {
+	for i := lo; i < hi; i++ {
+		if f(i) {
+			return true
+		}
+	}
+	return false
+}
+
+func specSubset(x, y []JsonNode, metadata []Metadata) bool {
+	return forallInt(0, len(x), func(i int) bool {
+		return existsInt(0, len(y), func(j int) bool { return specEq(x[i], y[j], metadata) })
+	})
+}
+
+func specCount(l []JsonNode, v JsonNode, metadata []Metadata) int {
+	if len(l) == 0 {
+		return 0
+	}
+	if specEq(l[0], v, metadata) {
+		return 1 + specCount(l[1:], v, metadata)
+	}
+	return specCount(l[1:], v, metadata)
+}
+
+// specSoriEq: a deferred string-or-integer token equals a string with the same text or the number
+// it denotes (uninterpreted for the verifier: defined natively through strconv).
+func specSoriEq(x jsonStringOrInteger, b JsonNode, metadata []Metadata) bool {
+	return x.Equals(b, metadata...)
 }
 
 func specEqList(x, y []JsonNode, metadata []Metadata) bool {
@@ -156,6 +196,7 @@ func specListMode(metadata []Metadata) bool {
 	return specArrayKind(metadata) == 1
 }
 
+// same: identical documents (same kinds, same order).
 func same(a, b JsonNode) bool {
-	return specEq(a, b, nil)
+	return verifLit(a) == verifLit(b)
 }
